@@ -342,7 +342,7 @@ pub fn check(property: &'static str) -> i32 {
     let viol: Arc<Mutex<Vec<Violation>>> = Arc::new(Mutex::new(Vec::new()));
     let errs: Arc<Mutex<Vec<String>>> = Arc::new(Mutex::new(Vec::new()));
     let mut uni_json = Vec::new();
-    let max_states = if thorough { 4000 } else { 1500 };
+    let max_states = if thorough { 4000 } else { 3000 };
 
     for u in universes(thorough) {
         let before = tot.lock().unwrap().transitions;
